@@ -826,6 +826,14 @@ func SendV[T any](ch chan<- T, v T) {
 	ch <- v
 }
 
+// SendPt is the scheduling point in front of a real `ch <- v`.
+func SendPt[T any](ch chan<- T) {
+	if E == nil {
+		return
+	}
+	point("send", ch, func() bool { return sendReady(ch) })
+}
+
 // CloseCh is `close(ch)`.
 func CloseCh[T any](ch chan<- T) {
 	if E == nil {
